@@ -82,7 +82,8 @@ PROPS = {
             "level": "proof"},
     "C12": {"targets": C12_TARGETS + [CMD + "SetPropertiesCommand.__init__", CMD + "SetPropertiesCommand.tobytes",
                                        CMD + "GetPropertiesCommand.__init__", CMD + "GetPropertiesCommand.tobytes",
-                                       CMD + "PropertyId.encode"],
+                                       CMD + "PropertyId.encode",
+                                       (AC + "._send_command_get_responses", r"assign\.Command|noraise"), DEVB + "._send_command#transport"],
             "level": "proof"},
     "C13": {"targets": ["C13.sum_split.base", "C13.sum_split.step", "C13.single_byte_corruption_is_rejected", "msmart.frame.Frame.validate", "msmart.frame.Frame.checksum", "msmart.crc8.calculate", "crc8.table", "crc8.step_range",
                         CMD + "Response.validate", CMD + "Response.construct",
